@@ -772,6 +772,10 @@ func c08LayoutOf(r *Run, rule string, fn *ssa.Function, want func(Env) []string,
 	r.Analysed(w.FnName(fn))
 	arr := localByteArray(fn, 10)
 	if arr == nil {
+		// the header may be built by a shared helper the factory returns the result of
+		if c08LayoutViaHelper(r, rule, fn, want, doms, wantReply) {
+			return
+		}
 		r.Undecided(rule, w.FnName(fn)+": header array", fn.Pos(), "no unique local [10]byte")
 		return
 	}
